@@ -6,7 +6,7 @@
    vm_compute in RsMds.v. *)
 From Coq Require Import ZArith List Bool Lia Arith.
 From KV.Base Require Import Word.
-From KV.Fec Require Import Gf256 Codec Rs AutoTune Fec FecSpec.
+From KV.Fec Require Import Gf256 Codec Rs AutoTune Fec FecSpec FecProofs.
 Import ListNotations.
 Local Open Scope Z_scope.
 
@@ -174,4 +174,228 @@ Proof.
       * intros u v Hu Hv Pu Pv.
         replace (0 :: vxor u v) with (vxor (0 :: u) (0 :: v)) by reflexivity.
         apply Px; simpl; auto.
+Qed.
+
+(* ------------------------------------------------------------ the finite check *)
+
+Fixpoint positions (i : nat) (mask : list bool) : list nat :=
+  match mask with
+  | [] => []
+  | b :: t => if b then i :: positions (S i) t else positions (S i) t
+  end.
+
+(* column view of the codeword: shard i of the codeword of the data column x *)
+Definition cw_col (m : matrix) (d : nat) (x : list Z) (i : nat) : Z :=
+  if Nat.ltb i d then nth i x 0 else dot (nth i m []) x.
+
+Definition check_mask (m : matrix) (d : nat) (mask : list bool) : bool :=
+  let idxs := firstn d (positions 0 mask) in
+  match invert d (map (fun i => nth i m []) idxs) with
+  | None => false
+  | Some inv =>
+      forallb (fun k => nth k mask false ||
+                 forallb (fun e => dot (nth k inv []) (map (cw_col m d e) idxs) =? nth k e 0) (basis d))
+              (seq 0 d)
+  end.
+
+Fixpoint all_masks (n : nat) : list (list bool) :=
+  match n with
+  | O => [[]]
+  | S n' => flat_map (fun m => [true :: m; false :: m]) (all_masks n')
+  end.
+
+Definition check_mds (d p : nat) : bool :=
+  match rs_matrix d p with
+  | None => false
+  | Some m =>
+      Nat.eqb (length m) (d + p) &&
+      forallb (fun mask => Nat.ltb (count_true mask) d || check_mask m d mask) (all_masks (d + p))
+  end.
+
+Lemma all_masks_complete n : forall mask, length mask = n -> In mask (all_masks n).
+Proof.
+  induction n as [|n IH]; intros mask H.
+  - destruct mask; [left; reflexivity|discriminate].
+  - destruct mask as [|b t]; [discriminate|]. simpl. apply in_flat_map. exists t.
+    split; [apply IH; simpl in H; lia|]. destruct b; simpl; auto.
+Qed.
+
+Lemma positions_ge mask : forall i0 i, In i (positions i0 mask) -> (i0 <= i < i0 + length mask)%nat.
+Proof.
+  induction mask as [|b t IH]; intros i0 i H; simpl in *; [contradiction|].
+  destruct b; [destruct H as [<-|H]; [lia|]|]; apply IH in H; lia.
+Qed.
+
+Lemma positions_length mask : forall i0, length (positions i0 mask) = count_true mask.
+Proof.
+  unfold count_true. induction mask as [|b t IH]; intros i0; simpl; [reflexivity|].
+  destruct b; simpl; rewrite IH; reflexivity.
+Qed.
+
+Lemma positions_mask mask : forall i0 i, In i (positions i0 mask) -> nth (i - i0) mask false = true.
+Proof.
+  induction mask as [|b t IH]; intros i0 i H; [contradiction|].
+  assert (Hrec : In i (positions (S i0) t) -> nth (i - i0) (b :: t) false = true).
+  { intros H'. pose proof (positions_ge _ _ _ H'). apply IH in H'.
+    replace (i - i0)%nat with (S (i - S i0)) by lia. exact H'. }
+  destruct b; simpl in H.
+  - destruct H as [H|H]; [subst i; rewrite Nat.sub_diag; reflexivity|auto].
+  - auto.
+Qed.
+
+Lemma present_restrict mask : forall cw i0, length mask = length cw ->
+  present i0 (restrict mask cw) = map (fun i => (i, nth (i - i0) cw [])) (positions i0 mask).
+Proof.
+  unfold restrict. induction mask as [|b t IH]; intros cw i0 Hl; [reflexivity|].
+  destruct cw as [|x cw]; [discriminate|]. simpl in Hl. simpl combine. simpl map at 1. simpl positions.
+  assert (Hrest : present (S i0) (map (fun bx : bool * bytes => if fst bx then Some (snd bx) else None) (combine t cw)) =
+                  map (fun i => (i, nth (i - i0) (x :: cw) [])) (positions (S i0) t)).
+  { rewrite IH by lia. apply map_ext_in. intros i Hi. apply positions_ge in Hi.
+    replace (i - i0)%nat with (S (i - S i0)) by lia. reflexivity. }
+  destruct b; simpl.
+  - rewrite Nat.sub_diag. simpl. f_equal. exact Hrest.
+  - exact Hrest.
+Qed.
+
+(* ------------------------------------------------------------ from the check to mds *)
+
+Lemma cw_col_lin m d x y i : length x = length y ->
+  cw_col m d (vxor x y) i = Z.lxor (cw_col m d x i) (cw_col m d y i).
+Proof.
+  intros H. unfold cw_col. destruct (Nat.ltb i d); [apply nth_vxor; assumption|apply dot_lin; assumption].
+Qed.
+
+Lemma cw_col_zeros m d n i : cw_col m d (repeat 0 n) i = 0.
+Proof. unfold cw_col. destruct (Nat.ltb i d); [apply nth_repeat0|apply dot_zeros]. Qed.
+
+Lemma check_mask_all m d mask k x :
+  check_mask m d mask = true -> (k < d)%nat -> nth k mask false = false ->
+  length x = d -> Forall (fun b => 0 <= b < 256) x ->
+  exists inv, invert d (map (fun i => nth i m []) (firstn d (positions 0 mask))) = Some inv /\
+    dot (nth k inv []) (map (cw_col m d x) (firstn d (positions 0 mask))) = nth k x 0.
+Proof.
+  unfold check_mask. intros Hc Hk Hm Hl Hb.
+  destruct (invert d _) as [inv|]; [|discriminate]. exists inv. split; [reflexivity|].
+  rewrite forallb_forall in Hc. specialize (Hc k ltac:(apply in_seq; lia)). rewrite Hm in Hc. simpl in Hc.
+  rewrite forallb_forall in Hc.
+  set (idxs := firstn d (positions 0 mask)) in *.
+  apply (vec_decomp d (fun x => dot (nth k inv []) (map (cw_col m d x) idxs) = nth k x 0)); try assumption.
+  - rewrite nth_repeat0. rewrite (map_ext _ (fun _ => 0)) by (intros; apply cw_col_zeros).
+    clear. generalize (nth k inv []). induction idxs; intros c; destruct c; simpl; rewrite ?gmul_0_r, ?IHidxs; auto.
+  - intros j i Hj Hi. apply Z.eqb_eq. apply Hc. apply in_basis; assumption.
+  - intros u v Hu Hv Pu Pv.
+    assert (E : map (cw_col m d (vxor u v)) idxs = vxor (map (cw_col m d u) idxs) (map (cw_col m d v) idxs)).
+    { clear - Hu Hv. induction idxs; simpl; [reflexivity|]. rewrite cw_col_lin by congruence. f_equal. assumption. }
+    rewrite E, dot_lin by (rewrite !map_length; reflexivity).
+    rewrite Pu, Pv. symmetry. apply nth_vxor. congruence.
+Qed.
+
+Lemma nth_map_col (data : list (list Z)) ci i :
+  nth i (map (fun x => nth ci x 0) data) 0 = nth ci (nth i data []) 0.
+Proof.
+  destruct (Nat.lt_ge_cases i (length data)).
+  - rewrite nth_indep with (d' := nth ci [] 0) by (rewrite map_length; assumption).
+    apply (map_nth (fun x => nth ci x 0)).
+  - rewrite (nth_overflow (map (fun x => nth ci x 0) data)) by (rewrite map_length; assumption).
+    rewrite (nth_overflow data) by assumption. destruct ci; reflexivity.
+Qed.
+
+Lemma nth_map_in {A B} (f : A -> B) l : forall i d0 d1, (i < length l)%nat -> nth i (map f l) d0 = f (nth i l d1).
+Proof. induction l; destruct i; simpl; intros; try lia; auto. apply IHl. lia. Qed.
+
+Lemma nth_skipn' {A} (l : list A) : forall n i d0, nth i (skipn n l) d0 = nth (n + i) l d0.
+Proof. induction l; destruct n; simpl; intros; auto. destruct i; reflexivity. Qed.
+
+Lemma in_firstn {A} (x : A) n : forall l, In x (firstn n l) -> In x l.
+Proof. induction n; destruct l; simpl; intros H; try contradiction. destruct H; auto. Qed.
+
+Theorem check_mds_sound d p :
+  (0 < d)%nat -> check_mds d p = true ->
+  mds (rs_codec (Z.of_nat d) (Z.of_nat p)) (Z.of_nat d) (Z.of_nat p).
+Proof.
+  intros Hd0 Hc. unfold check_mds in Hc. unfold rs_codec. rewrite !Nat2Z.id.
+  destruct (rs_matrix d p) as [m|]; [|discriminate].
+  apply andb_true_iff in Hc as [Hlen Hall]. apply Nat.eqb_eq in Hlen.
+  rewrite forallb_forall in Hall.
+  intros data L Hdl Hdok HL. simpl c_encode. simpl c_reconstruct. rewrite Nat2Z.id in Hdl.
+  unfold bytes in *.
+  assert (HdL : Forall (fun x : list Z => length x = L) data).
+  { apply Forall_forall. intros s Hs. rewrite Forall_forall in Hdok. apply (Hdok s Hs). }
+  assert (Hlen0 : match data with x :: _ => length x | [] => 0%nat end = L).
+  { destruct data as [|x t]; [simpl in Hdl; lia|]. apply Forall_cons_iff in HdL as [Hx _]. exact Hx. }
+  assert (Henc : rs_encode_with m d data = map (fun r => lin_comb L r data) (skipn d m)).
+  { unfold rs_encode_with. cbv zeta. f_equal. rewrite <- Hlen0. reflexivity. }
+  rewrite Henc. clear Henc.
+  remember (map (fun r => lin_comb L r data) (skipn d m)) as parity eqn:Epar.
+  assert (Hpl : length parity = p) by (rewrite Epar, map_length, skipn_length; lia).
+  assert (HpL : Forall (fun s : list Z => length s = L) parity).
+  { rewrite Epar. apply Forall_forall. intros s Hs. apply in_map_iff in Hs. destruct Hs as (r & <- & _).
+    apply lin_comb_length. assumption. }
+  split; [rewrite ?Nat2Z.id; assumption|]. split; [assumption|].
+  intros mask Hml Hcnt. rewrite <- Nat2Z.inj_add, Nat2Z.id in Hml. rewrite Nat2Z.id in Hcnt.
+  unfold bytes in *.
+  remember (data ++ parity) as cw eqn:Ecw.
+  assert (Hcwl : length cw = (d + p)%nat) by (rewrite Ecw, app_length; lia).
+  assert (HcwL : Forall (fun s : list Z => length s = L) cw) by (rewrite Ecw; apply Forall_app; auto).
+  pose proof (Hall mask (all_masks_complete _ mask Hml)) as Hchk.
+  apply orb_true_iff in Hchk. destruct Hchk as [Hlt|Hchk]; [apply Nat.ltb_lt in Hlt; lia|].
+  unfold rs_reconstruct_with.
+  rewrite present_restrict by (transitivity (d + p)%nat; [exact Hml|symmetry; exact Hcwl]).
+  unfold bytes in *.
+  remember (firstn d (positions 0 mask)) as idxs eqn:Eidx.
+  assert (Hpr : firstn d (map (fun i => (i, nth (i - 0) cw [])) (positions 0 mask)) =
+                map (fun i => (i, nth i cw [])) idxs).
+  { rewrite firstn_map, <- Eidx. apply map_ext. intros i. rewrite Nat.sub_0_r. reflexivity. }
+  rewrite Hpr.
+  assert (Hil : length idxs = d).
+  { rewrite Eidx, firstn_length, positions_length. lia. }
+  assert (Hiin : forall i, In i idxs -> (i < d + p)%nat /\ nth i mask false = true).
+  { intros i Hi. rewrite Eidx in Hi. apply in_firstn in Hi. split.
+    - apply positions_ge in Hi. lia.
+    - apply positions_mask in Hi. rewrite Nat.sub_0_r in Hi. exact Hi. }
+  rewrite map_length, Hil, Nat.ltb_irrefl.
+  assert (Hfirst : match map (fun i => (i, nth i cw [])) idxs with (_, s) :: _ => length s | [] => 0%nat end = L).
+  { destruct idxs as [|i0 rest] eqn:Ei; [simpl in Hil; lia|]. simpl.
+    rewrite Forall_forall in HcwL. apply HcwL. apply nth_In. rewrite Hcwl.
+    apply (Hiin i0). left; reflexivity. }
+  rewrite Hfirst. destruct (Nat.eqb L 0) eqn:EL; [apply Nat.eqb_eq in EL; lia|].
+  rewrite map_map. simpl.
+  (* the inverse exists for this mask *)
+  assert (Hinv : exists inv, invert d (map (fun i => nth i m []) idxs) = Some inv).
+  { unfold check_mask in Hchk. rewrite <- Eidx in Hchk. destruct (invert d _) as [inv|]; [eauto|discriminate]. }
+  destruct Hinv as (inv & Hinv). rewrite Hinv. f_equal.
+  apply nth_ext with (d := []) (d' := []); [rewrite map_length, seq_length; lia|].
+  intros k Hk. rewrite map_length, seq_length in Hk.
+  rewrite FecProofs.map_seq_nth by assumption.
+  rewrite FecProofs.restrict_nth by (unfold bytes in *; lia).
+  assert (Hkd : nth k cw [] = nth k data []) by (rewrite Ecw; apply app_nth1; lia).
+  destruct (nth k mask false) eqn:Emk; [exact Hkd|].
+  (* a missing data shard: column by column *)
+  rewrite map_map. simpl snd.
+  assert (HhaveL : Forall (fun s : list Z => length s = L) (map (fun i => nth i cw []) idxs)).
+  { apply Forall_forall. intros s Hs. apply in_map_iff in Hs. destruct Hs as (i & <- & Hi).
+    rewrite Forall_forall in HcwL. apply HcwL. apply nth_In. rewrite Hcwl. apply (Hiin i Hi). }
+  assert (HkL : length (nth k data []) = L).
+  { rewrite Forall_forall in HdL. apply HdL. apply nth_In. lia. }
+  apply nth_ext with (d := 0) (d' := 0); [rewrite lin_comb_length by assumption; congruence|].
+  intros ci Hci. rewrite lin_comb_length in Hci by assumption.
+  rewrite lin_comb_nth by assumption. rewrite map_map.
+  remember (map (fun s => nth ci s 0) data) as xcol eqn:Ex.
+  assert (Hxl : length xcol = d) by (rewrite Ex, map_length; assumption).
+  assert (Hxb : Forall (fun b => 0 <= b < 256) xcol).
+  { rewrite Ex. apply Forall_forall. intros b Hb. apply in_map_iff in Hb. destruct Hb as (s & <- & Hs).
+    rewrite Forall_forall in Hdok. destruct (Hdok s Hs) as (Hsl & Hsb).
+    unfold bytes_ok in Hsb. rewrite Forall_forall in Hsb. apply Hsb. apply nth_In. lia. }
+  destruct (check_mask_all m d mask k xcol Hchk Hk Emk Hxl Hxb) as (inv' & Hinv' & Hdot).
+  rewrite <- Eidx in Hinv', Hdot. rewrite Hinv in Hinv'. inversion Hinv'; subst inv'.
+  assert (Hcols : map (fun i => nth ci (nth i cw []) 0) idxs = map (cw_col m d xcol) idxs).
+  { apply map_ext_in. intros i Hi. destruct (Hiin i Hi) as (Hin & _). unfold cw_col.
+    destruct (Nat.ltb i d) eqn:Eid.
+    - apply Nat.ltb_lt in Eid. rewrite Ecw, app_nth1 by lia. rewrite Ex. symmetry. apply nth_map_col.
+    - apply Nat.ltb_ge in Eid. rewrite Ecw, app_nth2 by lia. rewrite Hdl.
+      rewrite Epar.
+      rewrite (nth_map_in (fun r => lin_comb L r data) (skipn d m) (i - d) [] []) by (rewrite skipn_length; lia).
+      rewrite nth_skipn'. replace (d + (i - d))%nat with i by lia.
+      rewrite Ex. apply lin_comb_nth. assumption. }
+  rewrite Hcols, Hdot. rewrite Ex. apply nth_map_col.
 Qed.
